@@ -589,6 +589,8 @@ class Ev:
 	def get_attr(self, base: Val, attr: str, n: ast.AST | None = None) -> Val:
 		if isinstance(base.ty, TOpt):
 			base = self.unwrap(base)
+		if attr == 'value' and isinstance(base.ty, (TInt, TStr)):
+			return base  # Enum members are modelled by their values
 		if isinstance(base.ty, TRec):
 			mattr = source.mangle(self.fn.cname, attr)
 			for cand in (attr, mattr):
@@ -752,6 +754,13 @@ class Ev:
 				self.exit_if(y == 0, 'ZeroDivisionError')
 				# int / int is CPython's correctly rounded true division: NOT float(x) / float(y) for operands beyond 2**53
 				return Val(FLOAT, z3.Function('itruediv', z3.IntSort(), z3.IntSort(), FLOAT.sort())(x, y))
+			# exact special cases: shifting right by a constant is floor division by a power of two; masking with 2**k - 1 is the remainder
+			if isinstance(op, ast.RShift) and b.is_conc() and isinstance(b.conc, int) and 0 <= b.conc < 64:
+				return Val(INT, x / z3.IntVal(2 ** b.conc))
+			if isinstance(op, ast.LShift) and b.is_conc() and isinstance(b.conc, int) and 0 <= b.conc < 64:
+				return Val(INT, x * z3.IntVal(2 ** b.conc))
+			if isinstance(op, ast.BitAnd) and b.is_conc() and isinstance(b.conc, int) and b.conc >= 0 and (b.conc + 1) & b.conc == 0:
+				return Val(INT, x % z3.IntVal(b.conc + 1))
 			names = {ast.BitOr: 'int_or', ast.BitAnd: 'int_and', ast.BitXor: 'int_xor', ast.LShift: 'int_shl', ast.RShift: 'int_shr'}
 			if type(op) in names:
 				if isinstance(op, (ast.LShift, ast.RShift)):
